@@ -59,6 +59,35 @@ func (c *Ctx) keyProvenance(fd *ast.FuncDecl, e ast.Expr, defs map[types.Object]
 		if c.isSpecFunc(x, "normalizeBase") || c.isSpecFunc(x, "normalizeURI") {
 			return true, ""
 		}
+		// <helper>(<normalised ref>.GetURL()).String() where the helper hands back a copy of the URL without its fragment
+		if se, ok := unparen(x.Fun).(*ast.SelectorExpr); ok && se.Sel.Name == "String" && len(x.Args) == 0 {
+			if hc, isCall := unparen(se.X).(*ast.CallExpr); isCall && len(hc.Args) == 1 {
+				if g, isF := c.callee(hc).(*types.Func); isF && g.Pkg() == c.Types {
+					okCopy, why := c.urlCopyWithoutFragment(g)
+					if !okCopy {
+						return false, "key is the result of " + exprString(hc.Fun) + "(..).String: " + why
+					}
+					// its argument: GetURL() of a normalised reference
+					if gc, isGet := unparen(hc.Args[0]).(*ast.CallExpr); isGet {
+						if gse, isSel := unparen(gc.Fun).(*ast.SelectorExpr); isSel && gse.Sel.Name == "GetURL" {
+							if rid, isId := unparen(gse.X).(*ast.Ident); isId {
+								norm := len(defs[c.objOf(rid)]) > 0
+								for _, rd := range defs[c.objOf(rid)] {
+									rc, isC := unparen(rd).(*ast.CallExpr)
+									if !isC || !c.isSpecFunc(rc, "normalizeRef") {
+										norm = false
+									}
+								}
+								if norm {
+									return true, ""
+								}
+							}
+						}
+					}
+					return false, "URL is not that of a normalised reference"
+				}
+			}
+		}
 		// <url>.String() of the URL of a normalised ref whose Fragment was cleared
 		if se, ok := unparen(x.Fun).(*ast.SelectorExpr); ok && se.Sel.Name == "String" && len(x.Args) == 0 {
 			if id, ok := unparen(se.X).(*ast.Ident); ok {
@@ -688,3 +717,95 @@ func ruleCanonEntry(c *Ctx) {
 
 var _ = sort.Strings
 var _ = strings.HasPrefix
+
+// urlCopyWithoutFragment: g takes one *url.URL and every value it returns is a url.URL literal that copies each
+// field of the parameter except the fragment (Fragment, RawFragment), which it leaves empty. A field that is
+// not copied makes two different locations share a key (or a location lose a part it is fetched with).
+func (c *Ctx) urlCopyWithoutFragment(g *types.Func) (bool, string) {
+	gfd := c.decl(g)
+	if gfd == nil || gfd.Body == nil {
+		return false, "no body"
+	}
+	sig := g.Type().(*types.Signature)
+	if sig.Params().Len() != 1 || sig.Results().Len() != 1 {
+		return false, "not a one-argument URL helper"
+	}
+	isURL := func(t types.Type) *types.Struct {
+		nt, ok := types.Unalias(derefType(t)).(*types.Named)
+		if !ok || nt.Obj().Pkg() == nil || nt.Obj().Pkg().Path() != "net/url" || nt.Obj().Name() != "URL" {
+			return nil
+		}
+		st, _ := nt.Underlying().(*types.Struct)
+		return st
+	}
+	ust := isURL(sig.Params().At(0).Type())
+	if ust == nil || isURL(sig.Results().At(0).Type()) == nil {
+		return false, "not a URL-to-URL helper"
+	}
+	param := c.paramObj(gfd, 0)
+	defs := c.localDefs(gfd)
+	good, why, n := true, "", 0
+	ast.Inspect(gfd.Body, func(nd ast.Node) bool {
+		if _, isLit := nd.(*ast.FuncLit); isLit {
+			return false
+		}
+		rs, ok := nd.(*ast.ReturnStmt)
+		if !ok || len(rs.Results) != 1 {
+			return true
+		}
+		n++
+		e := unparen(rs.Results[0])
+		if id, isId := e.(*ast.Ident); isId {
+			if ds := defs[c.objOf(id)]; len(ds) == 1 && ds[0] != nil {
+				e = unparen(ds[0])
+			}
+		}
+		if u, isAddr := e.(*ast.UnaryExpr); isAddr && u.Op == token.AND {
+			e = unparen(u.X)
+		}
+		lit, isLit := e.(*ast.CompositeLit)
+		if !isLit {
+			good, why = false, "it does not return a URL literal"
+			return true
+		}
+		set := map[string]ast.Expr{}
+		for _, el := range lit.Elts {
+			kv, isKV := el.(*ast.KeyValueExpr)
+			if !isKV {
+				good, why = false, "positional URL literal"
+				return true
+			}
+			if k, isId := kv.Key.(*ast.Ident); isId {
+				set[k.Name] = kv.Value
+			}
+		}
+		for i := 0; i < ust.NumFields(); i++ {
+			f := ust.Field(i)
+			if !f.Exported() {
+				continue
+			}
+			v, has := set[f.Name()]
+			if f.Name() == "Fragment" || f.Name() == "RawFragment" {
+				if has {
+					if s, isC := c.constString(v); !isC || s != "" {
+						good, why = false, "the fragment is kept in the copy"
+					}
+				}
+				continue
+			}
+			if !has {
+				good, why = false, "the hand-written copy of the URL does not carry "+f.Name()+": two locations that differ there share one cache key (and the document is requested without it)"
+				continue
+			}
+			p, okp := c.apath(v)
+			if !okp || p.Root != param || lastStep(p) != f.Name() {
+				good, why = false, "field "+f.Name()+" of the copy is not the parameter's "+f.Name()
+			}
+		}
+		return true
+	})
+	if n == 0 {
+		return false, "no return"
+	}
+	return good, why
+}
